@@ -20,6 +20,15 @@ def rdHeader : Rd Header := do
   pure { version := v, padding := p, extension := x, marker := m, payloadType := pt, seq := sq,
          ts := ts, ssrc := ss, csrc := cs, extProfile := prof, exts := es }
 
+/-- RFC 8285 §4.3: profiles 0x1001–0x100F are TWO-BYTE profiles with non-zero appbits.  The library
+    (and `Pred.C01.extsLegal`, which follows it) takes them for legacy profiles — the open known
+    finding `c03_twobyte_appbits` of C03.  The quantifiers of C01/C04/C05/C20 name "one-byte |
+    two-byte | legacy" blocks and say nothing about how such a profile is to be classified, so
+    headers that carry one (while X is set) are outside those properties: correspondence only. -/
+def appbitsProfile (p : UInt16) : Bool := (p &&& 0xFFF0) == 0x1000 && p != 0x1000
+
+def hdrAppbits (h : Header) : Bool := h.extension && appbitsProfile h.extProfile
+
 def rdPacket : Rd Packet := do
   let h ← rdHeader; let pl ← Rd.bytes; let ps ← Rd.u8
   pure { header := h, payload := pl, paddingSize := ps }
